@@ -34,6 +34,11 @@ type Dyn struct {
 	// Preload: a variant loaded in the same process right before the session's own load (a shipped
 	// variant by name, or "gen" = the generated variant from bytes); the session then runs on the base
 	Preload string `json:"preload,omitempty"`
+	// Custom: hostile hostname of a "customised levels" session; CustomMode update | shared
+	Custom     string `json:"custom,omitempty"`
+	CustomMode string `json:"custom_mode,omitempty"`
+	// TwoMode: "two drivers from one Platform object" session: transport1 | transport3 | fields
+	TwoMode string `json:"two_mode,omitempty"`
 }
 
 func (s Dyn) label() string {
